@@ -23,7 +23,7 @@ func init() {
 		Title: "No storage reward or prover status without a valid proof of the challenged chunk",
 		Cases: func(t string) int { return tierN(t, 160, 2400) },
 		Run:   runC01,
-		Rule: "case = one history: 1-2 files of 1-40 chunks (chunk size 1/16/1024, replication 1-4), 2 honest and 2-3 dishonest accounts, 10-24 proof submissions drawn from 12 payload classes (honest control + 11 mutation classes), every submission followed by reward blocks with live gauges; " +
+		Rule: "case = one history: 1-2 files of 1-40 chunks (chunk size 1/16/1024, replication 1-4), 2 honest and 2-3 dishonest accounts, 10-24 proof submissions drawn from 14 payload classes (honest control + 13 mutation classes), every submission followed by reward blocks with live gauges; " +
 			"oracle per submission: reference verifier (independent Merkle/leaf implementation + challenge read through the Proof query just before) says invalid => (File.Proofs, all ProofsByAddress(signer), signer balance) digest unchanged and Success=false; per reward block: hooked counted bytes of every prover <= bytes of files it has validly proven at least once, storage-module payees subset of validly-proven provers; " +
 			"non-trivial signature = payload class x {newcomer,listed} x {room,full} of a reference-invalid submission that was followed by a reward block releasing tokens",
 		Assumptions: []string{
@@ -155,7 +155,7 @@ func runC01(rc *RunCtx) {
 		return
 	}
 	nSub := 10 + rc.Intn(15)
-	classes := []string{"honest", "honest", "other-chunk-bytes", "wrong-index", "bitflip-path", "nonjson-path", "truncated-path", "other-file-proof", "empty-item", "empty-path", "stale-replay", "index-field-tamper", "unknown-file", "wrong-start"}
+	classes := []string{"honest", "honest", "other-chunk-bytes", "wrong-index", "bitflip-path", "nonjson-path", "truncated-path", "other-file-proof", "empty-item", "empty-path", "stale-replay", "index-field-tamper", "unknown-file", "wrong-start", "other-chunk-proof-claimed-as-challenge", "other-chunk-proof-claimed-as-challenge"}
 	for n := 0; n < nSub; n++ {
 		wf := w.Files[rc.Intn(len(w.Files))]
 		signer := 1 + rc.Intn(len(c.Accs)-1)
@@ -249,6 +249,20 @@ func (w *c01World) submit(signer int, wf *WFile, class string) {
 			item, hl = wf.F.Proof(j)
 		} else {
 			toProve = challenge + 1
+		}
+	case "other-chunk-proof-claimed-as-challenge":
+		// a holder of only one chunk (typically chunk 0) presents that chunk's perfectly valid proof under the challenged index
+		if n >= 2 && okIdx {
+			j := int64(0)
+			if challenge == 0 || rc.Chance(0.3) {
+				j = (challenge + 1 + int64(rc.Intn(int(n-1)))) % n
+			}
+			item, hl = wf.F.Proof(j)
+			if string(item) == string(wf.F.Chunks[challenge]) {
+				item = append([]byte{0x33}, item...)
+			}
+		} else {
+			item = append([]byte{0x42}, item...)
 		}
 	case "bitflip-path":
 		var p gen.ProofJSON
